@@ -240,16 +240,12 @@ impl Zoned {
     ensures
         to_zoned_ok(res, &self.tz, dt_start_of_day(self.dt)),
 {
-        
-        if self.time() == Time::midnight() {
-            return Ok(self.clone());
-        }
         self.datetime().start_of_day().to_zoned(self.time_zone().clone())
     }
 }
 
 impl Zoned {
-// @fn Zoned::end_of_day @src src/zoned.rs:1184
+// @fn Zoned::end_of_day @src src/zoned.rs:1180
 
     pub fn end_of_day(&self) -> (res: Result<Zoned, Error>)
     requires
@@ -284,7 +280,7 @@ impl Zoned {
 }
 
 impl Zoned {
-// @fn Zoned::first_of_month @src src/zoned.rs:1236
+// @fn Zoned::first_of_month @src src/zoned.rs:1232
 
     pub fn first_of_month(&self) -> (res: Result<Zoned, Error>)
     requires
@@ -297,7 +293,7 @@ impl Zoned {
 }
 
 impl Zoned {
-// @fn Zoned::last_of_month @src src/zoned.rs:1268
+// @fn Zoned::last_of_month @src src/zoned.rs:1264
 
     pub fn last_of_month(&self) -> (res: Result<Zoned, Error>)
     requires
@@ -310,7 +306,7 @@ impl Zoned {
 }
 
 impl Zoned {
-// @fn Zoned::tomorrow @src src/zoned.rs:1495
+// @fn Zoned::tomorrow @src src/zoned.rs:1491
 
     pub fn tomorrow(&self) -> (res: Result<Zoned, Error>)
     requires
@@ -324,7 +320,7 @@ impl Zoned {
 }
 
 impl Zoned {
-// @fn Zoned::yesterday @src src/zoned.rs:1553
+// @fn Zoned::yesterday @src src/zoned.rs:1549
 
     pub fn yesterday(&self) -> (res: Result<Zoned, Error>)
     requires
@@ -338,7 +334,7 @@ impl Zoned {
 }
 
 impl Zoned {
-// @fn Zoned::checked_add_span @src src/zoned.rs:2212
+// @fn Zoned::checked_add_span @src src/zoned.rs:2208
 
     pub fn checked_add_span(&self, span: Span) -> (res: Result<Zoned, Error>)
     requires
@@ -371,7 +367,7 @@ impl Zoned {
 }
 
 impl Zoned {
-// @fn Zoned::checked_add_duration @src src/zoned.rs:2261
+// @fn Zoned::checked_add_duration @src src/zoned.rs:2257
 
     pub fn checked_add_duration(
         &self,
